@@ -130,6 +130,50 @@ func init() {
 				}
 				return OK()
 			}
+			if c.Tape.Choose(simrt.StGen, 5, 0) == 1 {
+				// outputs left by an INTERRUPTED run: kill at a tape-chosen crash state,
+				// re-run on exactly that state (leftover temp dirs and all). Whatever else
+				// the re-run does (C03), it must not re-execute a task one of whose
+				// outputs is final, nor touch those files.
+				c.Sample = "interrupted run, re-run in place: " + sample(w)
+				inc1 := RunInc(w, c.Tape, nil, 0, IncOpts{KillAt: -1, Strategy: strategyOf(c.Tape), Trace: c.Trace, Snapshots: true})
+				c.Absorb(inc1)
+				if v := flowOracle(inc1, ex0); v.Status != "ok" {
+					return foreign(v)
+				}
+				if len(inc1.Snaps) == 0 {
+					return OK()
+				}
+				sn := inc1.Snaps[c.Tape.Choose(simrt.StKill, len(inc1.Snaps), 0)]
+				c.Fault("kill@state")
+				before := finalBefore(sn.Root, ex0)
+				inc2 := RunInc(w, c.Tape, sn.Root, sn.NextIno, IncOpts{KillAt: -1, Strategy: strategyOf(c.Tape), Trace: c.Trace})
+				c.Absorb(inc2)
+				c.Tasks = max(c.Tasks, 2)
+				if v, ok := inconclusiveEnd(inc2); ok {
+					return v
+				}
+				what := fmt.Sprintf("first run killed after fs operation #%d (%s %s), re-run in place", sn.JSeq, sn.Entry.Op, strings.TrimPrefix(sn.Entry.Path, "/work/"))
+				for _, e := range inc2.Sim.Shell.Trace {
+					if e.Kind != "start" {
+						continue
+					}
+					for _, t := range ex0.ByKey[e.Key] {
+						for _, p := range t.Outs {
+							if _, ok := before[Abs(p)]; ok {
+								return Viol("existing-output-reexecuted", "", "%s: task %s was executed although its output %s already existed", what, e.Key, p)
+							}
+						}
+					}
+				}
+				for p, a := range before {
+					b, ok := idOf(inc2.Sim.FS.Root, p)
+					if !ok || a != b {
+						return Viol("existing-output-modified", "", "%s: existing output %s changed: (ino,mtime,bytes) %v -> %v", what, p, short(a), short(b))
+					}
+				}
+				return OK()
+			}
 			root, nextIno, pre := preplaceMap(c, w, ex0, true)
 			ex := EvalWith(w, pre)
 			c.Sample = fmt.Sprintf("pre-existing %v: %s", keysOf(pre), sample(w))
